@@ -684,6 +684,8 @@ func (P *Program) modExprKeys(fn *ssa.Function, ct *Contract, e *Expr) []string 
 		switch e.Name {
 		case "heap":
 			return []string{modAll}
+		case "hordstate":
+			return []string{ghHord, ghHdirty, ghHbound}
 		case "spawned":
 			return []string{ghSpawn}
 		}
@@ -703,6 +705,17 @@ func (P *Program) modExprKeys(fn *ssa.Function, ct *Contract, e *Expr) []string 
 			return []string{ghRecvd}
 		case "cancelled":
 			return []string{ghCancelled}
+		case "hordstate":
+			return []string{ghHord, ghHdirty, ghHbound}
+		case "maps":
+			var out []string
+			for k := range heapSorts {
+				if strings.HasPrefix(k, "MD$") || strings.HasPrefix(k, "MV$") {
+					out = append(out, k)
+				}
+			}
+			sort.Strings(out)
+			return append(out, "MD$Int$Int", "MV$Int$Int", "MD$Int$Slice", "MV$Int$Slice")
 		case "written":
 			return []string{ghBuf}
 		case "content":
